@@ -367,6 +367,38 @@ class Hang(Exception):
     pass
 
 
+def make_cancel_race_strategy(seed):
+    """a strategy that cancels orders which are still queued: it closes at market and, in the same step, cancels
+    everything (the queued market order included), and it cancels half-filled entry ladders - 'never after it was
+    cancelled' must hold for the flush of pending market orders and for the matching loops"""
+    from jesse.strategies import Strategy
+
+    class CancelRace(Strategy):
+        def should_long(self):
+            return self.index % 6 == 1
+
+        def should_short(self):
+            return self.index % 6 == 4
+
+        def go_long(self):
+            self.buy = [(1, self.price), (1, self.price - 1), (2, self.price - 2)]
+
+        def go_short(self):
+            self.sell = [(1, self.price), (1, self.price + 1), (2, self.price + 2)]
+
+        def should_cancel_entry(self):
+            return (self.index + seed) % 3 == 0
+
+        def update_position(self):
+            k = (self.index + seed) % 4
+            if k == 0:
+                self.broker.reduce_position_at(abs(self.position.qty), self.price, self.price)   # queues a MARKET order ...
+                self.broker.cancel_all_orders()       # ... and cancels it before the flush
+            elif k == 2:
+                self.liquidate()
+    return CancelRace
+
+
 def _watchdog(seconds):
     """a strategy can drive jesse's matching loop into a livelock (a hook that flips the position with a market
     order each time it opens); a run that does not end is dropped and counted, it is not a verdict of C02/C08/C09"""
@@ -402,7 +434,9 @@ def run_vivo(item):
     rec = Recorder(account=True).install()
     try:
         routes = [{'symbol': sym, 'timeframe': item.get('tf', '1m')} for sym in syms]
-        out = run_backtest(item['policy'], cfg, {sym: raws[sym].copy() for sym in syms}, routes=routes, fast=item['fast'])
+        cls = make_cancel_race_strategy(item['policy']['seed']) if item.get('strategy') == 'cancel_race' else None
+        out = run_backtest(item['policy'], cfg, {sym: raws[sym].copy() for sym in syms}, routes=routes, fast=item['fast'],
+                           strategy_cls=cls)
     except Hang:
         return None, {'hang': True, 'fills': 0, 'cancels': 0, 'submits': 0, 'markets': 0, 'liq': 0, 'exc': 'hang',
                       'minutes': 0}
